@@ -92,6 +92,28 @@ func monoOf(v ssa.Value, depth int) mono {
 				return mono{'-', '0'}
 			}
 		}
+		// a helper computing the priority: evaluate what it returns (single return value)
+		if sc := staticCallee(x); sc != nil {
+			g := unwrapSynthetic(sc)
+			if g != nil && g.Blocks != nil && isModPath(originPkgPath(g)) {
+				res := mono{'0', '0'}
+				n := 0
+				eachInstr(g, func(in ssa.Instruction) {
+					if ret, ok := in.(*ssa.Return); ok && len(ret.Results) == 1 {
+						m := monoOf(ret.Results[0], depth+1)
+						if n == 0 {
+							res = m
+						} else if m != res {
+							res = mono{'?', '?'}
+						}
+						n++
+					}
+				})
+				if n > 0 {
+					return res
+				}
+			}
+		}
 		return mono{'?', '?'}
 	case *ssa.UnOp:
 		if x.Op == token.SUB {
@@ -163,13 +185,17 @@ func checkC13(c *Ctx, r *Report) {
 	// ---- R2/R3/R6 in evict
 	for _, f := range c.FuncsNamed(janitorT + "evict") {
 		var removes []*ssa.Call
-		eachInstr(f, func(in ssa.Instruction) {
-			if x, ok := in.(*ssa.Call); ok && strings.HasPrefix(atomStr(x), "removeEntry(") {
-				removes = append(removes, x)
-			}
-		})
+		rmFn := map[*ssa.Call]*ssa.Function{}
+		for _, g := range pkgGroup(li, f) {
+			eachInstr(g, func(in ssa.Instruction) {
+				if x, ok := in.(*ssa.Call); ok && strings.HasPrefix(atomStr(x), "removeEntry(") {
+					removes = append(removes, x)
+					rmFn[x] = g
+				}
+			})
+		}
 		for i, rm := range removes {
-			fs := factStrs(f, rm)
+			fs := factStrsCtx(li, rmFn[rm], rm)
 			okStop := false
 			target := ""
 			for k := range fs {
@@ -185,6 +211,14 @@ func checkC13(c *Ctx, r *Report) {
 			r.Check(okStop, "C13.R2", fmt.Sprintf("evict: removal #%d only while size > target", i+1), c.InstrPos(rm), "dominated in the iteration by getCacheSize() <= target being false", "a removal in evict is not preceded by the 'target reached' test: eviction continues below the target")
 			// the loop exit test is re-evaluated per iteration: the getCacheSize call sits inside the loop
 			inLoop := reachableInstr(rm, rm, nil)
+			if !inLoop {
+				// the removal sits in a helper called from the loop
+				for _, cs := range li.Callers[rmFn[rm]] {
+					if reachableInstr(cs.in, cs.in, nil) {
+						inLoop = true
+					}
+				}
+			}
 			r.Check(inLoop, "C13.R2", fmt.Sprintf("evict: removal #%d is inside the candidate loop", i+1), c.InstrPos(rm), "loop body", "removal is not in a loop")
 			okTry := hasFact(fs, "TryLock(getLock(", true)
 			r.Check(okTry, "C13.R6", fmt.Sprintf("evict: removal #%d under a successful TryLock", i+1), c.InstrPos(rm), "TryLock(getLock(key)) == true", "an entry is evicted without holding its lock via TryLock")
@@ -260,7 +294,7 @@ func checkC13(c *Ctx, r *Report) {
 			// the removal loop walks the sorted slice from index 0 upwards: range loop over the sorted slice
 			okWalk := false
 			for _, rm := range removes {
-				fs := factStrs(f, rm)
+				fs := factStrsCtx(li, rmFn[rm], rm)
 				if hasFact(fs, "rangeindex+1<len(", true) {
 					okWalk = true
 				}
@@ -269,7 +303,7 @@ func checkC13(c *Ctx, r *Report) {
 		}
 		// priority monotone: the value stored into the priority field
 		found := false
-		for _, g := range append([]*ssa.Function{f}, closuresOf(f)...) {
+		for _, g := range pkgGroup(li, f) {
 			eachInstr(g, func(in ssa.Instruction) {
 				st, ok := in.(*ssa.Store)
 				if !ok {
@@ -290,29 +324,31 @@ func checkC13(c *Ctx, r *Report) {
 	// ---- R4/R5/R6 in cleanExpiredEntries
 	for _, f := range c.FuncsNamed(janitorT + "cleanExpiredEntries") {
 		var removes []*ssa.Call
-		eachInstr(f, func(in ssa.Instruction) {
-			if x, ok := in.(*ssa.Call); ok && strings.HasPrefix(atomStr(x), "removeEntry(") {
-				removes = append(removes, x)
-			}
-		})
+		rmFn := map[*ssa.Call]*ssa.Function{}
+		grp := pkgGroup(li, f)
+		for _, g := range grp {
+			eachInstr(g, func(in ssa.Instruction) {
+				if x, ok := in.(*ssa.Call); ok && strings.HasPrefix(atomStr(x), "removeEntry(") {
+					removes = append(removes, x)
+					rmFn[x] = g
+				}
+			})
+		}
 		for i, rm := range removes {
-			fs := factStrs(f, rm)
+			g := rmFn[rm]
+			fs := factStrsCtx(li, g, rm)
 			arg := atomStr(rm.Call.Args[0])
 			okLock := fs["TryLock(getLock("+arg+"))=true"]
 			okExp := fs["isExpired("+arg+")=true"]
-			// and the re-check happens after the lock was taken
-			var isExp, try *ssa.Call
-			eachInstr(f, func(in ssa.Instruction) {
-				if x, ok := in.(*ssa.Call); ok {
-					if atomStr(x) == "isExpired("+arg+")" {
-						isExp = x
-					}
-					if atomStr(x) == "TryLock(getLock("+arg+"))" {
-						try = x
+			// the re-check happens after the lock was taken: the isExpired call itself is made with the lock held
+			okOrder := false
+			eachInstr(g, func(in ssa.Instruction) {
+				if x, ok := in.(*ssa.Call); ok && atomStr(x) == "isExpired("+arg+")" {
+					if factStrsCtx(li, g, x)["TryLock(getLock("+arg+"))=true"] {
+						okOrder = true
 					}
 				}
 			})
-			okOrder := isExp != nil && try != nil && instrDominates(try, isExp)
 			r.Check(okLock, "C13.R6", fmt.Sprintf("cleanup: removal #%d under a successful TryLock of the same key", i+1), c.InstrPos(rm), "TryLock(getLock(key)) == true", "an expired entry is removed without holding its key lock via TryLock")
 			r.Check(okExp && okOrder, "C13.R4", fmt.Sprintf("cleanup: removal #%d re-checks expiry under the lock", i+1), c.InstrPos(rm), "isExpired(key) == true, evaluated after TryLock succeeded, dominates the removal", "the entry is removed on the strength of the lock-free scan alone: a fresh overwrite that landed between scan and removal is deleted")
 		}
@@ -333,12 +369,12 @@ func checkC13(c *Ctx, r *Report) {
 					if mc, isMC := st.Val.(*ssa.MakeClosure); isMC {
 						cl := mc.Fn.(*ssa.Function)
 						lookup, before := false, false
-						eachInstr(cl, func(i2 ssa.Instruction) {
-							if l, isL := i2.(*ssa.Lookup); isL {
-								if _, tracked := trackedMapField(l.X); tracked && sameVal(l.Index, cl.Params[0]) {
-									lookup = true
-								}
+						for _, ml := range lookupsIn(cl) {
+							if sameVal(ml.key, cl.Params[0]) {
+								lookup = true
 							}
+						}
+						eachInstr(cl, func(i2 ssa.Instruction) {
 							if x, isC := i2.(*ssa.Call); isC {
 								if exp, known := expiredWhenTrueF(x, "Expires"); known && exp {
 									before = true
@@ -353,7 +389,7 @@ func checkC13(c *Ctx, r *Report) {
 		}
 		// R5: keys appended only when expired
 		nApp := 0
-		for _, g := range append([]*ssa.Function{f}, closuresOf(f)...) {
+		for _, g := range grp {
 			eachInstr(g, func(in ssa.Instruction) {
 				call, ok := in.(*ssa.Call)
 				if !ok {
